@@ -301,8 +301,8 @@ fn exec_inner(fam: Fam, n: usize, slots: &[T], st: &Step) -> (Outcome, Option<T>
             Ok(t) => tab(t),
             Err(()) => (Outcome::ParseErr, None),
         },
-        // (no fixed-size alias beyond 12 variables: the round trip is the identity there)
-        Op::ConvRoundTrip if n > 12 => tab(a.dup()),
+        // (no fixed-size type beyond 13 variables in the harness: the round trip is the identity there)
+        Op::ConvRoundTrip if n > 13 => tab(a.dup()),
         Op::ConvRoundTrip => match a.convert(n) {
             Ok(x) => match x.convert(n) {
                 Ok(t) => tab(t),
@@ -465,14 +465,14 @@ pub fn arb_op(n: usize, fam: Fam, o: OpOptions) -> BoxedStrategy<Op> {
         // nth at or beyond the end of the enumeration (n <= 3: up to several times the function space)
         (1, (if n <= 3 { (1usize << size)..(5usize << size) + 1100 } else { 256usize..1500 }).prop_map(Op::AllFunctionsNth).boxed()),
         (1, Just(Op::Clone).boxed()),
-        (2, (0usize..=12).prop_map(Op::CloneFrom).boxed()),
+        (2, (0usize..=13).prop_map(Op::CloneFrom).boxed()),
         (4, (0usize..4).prop_map(Op::Not).boxed()),
         (3, (0..size).prop_map(Op::SetBit).boxed()),
         (3, (0..size).prop_map(Op::UnsetBit).boxed()),
         (2, (0..size, any::<bool>()).prop_map(|(m, b)| Op::SetValue(m, b)).boxed()),
         (2, Just(Op::HexRoundTrip).boxed()),
         (2, Just(Op::ConvRoundTrip).boxed()),
-        (2, (0usize..=12).prop_map(Op::ConvertTo).boxed()),
+        (2, (0usize..=13).prop_map(Op::ConvertTo).boxed()),
         (1, Just(Op::XorTwice).boxed()),
         (9, (prop_oneof![Just(BinOp::And), Just(BinOp::Or), Just(BinOp::Xor)], 0usize..8).prop_map(|(op, f)| Op::Bin(op, f)).boxed()),
         (1, (0..size).prop_map(Op::Value).boxed()),
